@@ -4,7 +4,8 @@ package main
 // readings of ECMA-262) against a JavaScript engine.
 //
 // For a generated template of the command fragment of Props/C04d (raw text, print with the escaping directives,
-// let, if/elseif/else, foreach/ifempty over the expression fragment of Props/C04c) and a data set:
+// let, if/elseif/else, foreach/ifempty, for-range, switch, content blocks, {call} of further templates of the file, over
+// the expression fragment of Props/C04c) and a data set:
 //   implementation side: soyjs.Write on the compiled file; the statements between `var output = '';` and
 //       `return output;` of the template's function; the function run in otto (soyutils.js) on the data;
 //   specification side (driver op `jssem`): the statement AST `toCmds` produces for the same compiled tree, printed with
@@ -133,6 +134,18 @@ var semStats = map[string]int{}
 func semDiffers(c *Case, want, impl string) bool {
 	wf, imf := strings.Split(want, " "), strings.Split(impl, " ")
 	semStats["semantics:"+wf[0]]++
+	if strings.Contains(c.Req, "7b63616c6c20") { // "{call "
+		semStats["with {call}, semantics:"+wf[0]]++
+		if strings.Contains(c.Req, "646174613d22616c6c22") { // data="all"
+			semStats["with data=all, semantics:"+wf[0]]++
+		}
+		if strings.Contains(c.Req, "646174613d2224") { // data="$
+			semStats["with data=$e, semantics:"+wf[0]]++
+		}
+		if strings.Contains(c.Req, "7b2f706172616d7d") { // {/param}
+			semStats["with a content param, semantics:"+wf[0]]++
+		}
+	}
 	if wf[0] == "UNSPEC" || wf[0] == "HANG" {
 		// the semantics is silent about the completion; the text must still be the same
 		semStats["unspec, engine:"+imf[0]]++
@@ -153,7 +166,7 @@ func init() {
 	}
 	register(&Prop{
 		ID: "C04sem",
-		Rule: "validation of the trusted JavaScript semantics: generated single-template files of the command fragment of Props/C04d (raw text with quotes, backslashes and HTML-special bytes; prints of int / string / bool expressions with no directive, |id, |noAutoescape, |escapeHtml under the three autoescape settings; let (value and content blocks) with fresh and SHADOWING names; if/elseif/else; foreach with and without ifempty over list parameters and map fields, for over range(…) with one to three arguments (positive literal step), switch on ints / strings with labels of both types, loop variables shadowing parameters, index / isFirst / isLast of the enclosing loops' variables; " +
+		Rule: "validation of the trusted JavaScript semantics: generated files — an entry template and, in half of them, one or two templates it calls ({call} with value and content params, no data / data=\"all\" / data=\"$m\", callees calling callees, calls inside loops and content blocks; the semantics runs the callee's translated body as the callee oracle) — of the command fragment of Props/C04d (raw text with quotes, backslashes and HTML-special bytes; prints of int / string / bool expressions with no directive, |id, |noAutoescape, |escapeHtml under the three autoescape settings; let (value and content blocks) with fresh and SHADOWING names; if/elseif/else; foreach with and without ifempty over list parameters and map fields, for over range(…) with one to three arguments (positive literal step), switch on ints / strings with labels of both types, loop variables shadowing parameters, index / isFirst / isLast of the enclosing loops' variables; " +
 			"expressions: + - * % on small ints, string concatenation, comparisons, same-type equality, and/or/not, ?:, elvis on a nullable, .k / ?.k / [i] accesses, length, isNonnull, floor/ceiling/round/min/max) x 3 data sets (one of them with missing map fields, null and undefined values, empty lists: TypeErrors and ifempty branches); " +
 			"soyjs.Write's statement text and its run in otto versus renderStmts(toCmds) and its run under Spec/JsStmt.execStmts in the driver, from the same data: text byte for byte, and the completion (output string / TypeError) wherever the semantics is not `unspec`; plus hand-written cases; non-trivial = the engine returns a non-empty string or throws",
 		Gen:         genC04sem,
@@ -197,15 +210,37 @@ type semVar struct {
 }
 
 type semGen struct {
-	r     *RNG
-	vars  []semVar // locals in scope, innermost last
-	used  map[string]bool
-	fresh int
-	loops int // enclosing loops
+	r        *RNG
+	vars     []semVar // locals in scope, innermost last
+	used     map[string]bool
+	fresh    int
+	isCallee bool
+	loops    int      // enclosing loops
 	loopVars []string // their variables, innermost last
+	kind     int      // which parameters the template under construction has (semKinds)
+	callees  []semCallee
 }
 
-var semParams = map[string]semTy{"n": semI, "k": semI, "s": semS, "t": semS, "b": semB, "li": semLI, "ls": semLS}
+// a template another one may call: its name, its kind and the parameters it declares (all optional)
+type semCallee struct {
+	name string
+	kind int
+	used map[string]bool
+}
+
+// the parameters of a template by kind: 0 = the entry template (and callees meant for data="all"), 1 = a callee that
+// reads its explicit params only ($p int, $c string, $pl list of ints), 2 = a callee meant for data="$m" (the fields
+// of the map, and $p / $c)
+type semKind struct {
+	order []string
+	ty    map[string]semTy
+}
+
+var semKinds = []semKind{
+	{[]string{"n", "k", "s", "t", "b", "li", "ls", "p", "c"}, map[string]semTy{"n": semI, "k": semI, "s": semS, "t": semS, "b": semB, "li": semLI, "ls": semLS, "p": semI, "c": semS}},
+	{[]string{"p", "c", "pl"}, map[string]semTy{"p": semI, "c": semS, "pl": semLI}},
+	{[]string{"a", "s", "l", "p", "c"}, map[string]semTy{"a": semI, "s": semS, "l": semLI, "p": semI, "c": semS}},
+}
 
 var semAlphabet = []string{"a", "b", "Z", "0", "7", " ", "<", ">", "&", "\"", "'", "\\", ".", "-", "=", "é", "x"}
 
@@ -232,8 +267,12 @@ func (g *semGen) variable(t semTy) (string, bool) {
 			cands = append(cands, v.name)
 		}
 	}
-	for _, p := range []string{"n", "k", "s", "t", "b", "li", "ls"} {
-		if semParams[p] == t && !seen[p] {
+	kd := semKinds[g.kind]
+	for _, p := range kd.order {
+		if (p == "p" || p == "c") && g.kind == 0 && !g.isCallee {
+			continue // the entry template has no $p / $c
+		}
+		if kd.ty[p] == t && !seen[p] {
 			cands = append(cands, p)
 		}
 	}
@@ -241,13 +280,41 @@ func (g *semGen) variable(t semTy) (string, bool) {
 		return "", false
 	}
 	n := cands[g.r.Intn(len(cands))]
-	if _, isParam := semParams[n]; isParam && !seen[n] {
+	if _, isParam := kd.ty[n]; isParam && !seen[n] {
 		g.used[n] = true
 	}
 	return "$" + n, true
 }
 
+// a field of the map parameter $m; in the callees without $m, the parameter that plays its part
 func (g *semGen) mapRef(path string) string {
+	switch g.kind {
+	case 1:
+		switch path {
+		case ".s", "?.s":
+			g.used["c"] = true
+			return "$c"
+		case ".l":
+			g.used["pl"] = true
+			return "$pl"
+		}
+		g.used["p"] = true
+		return "$p"
+	case 2:
+		switch path {
+		case ".a":
+			g.used["a"] = true
+			return "$a"
+		case ".s", "?.s":
+			g.used["s"] = true
+			return "$s"
+		case ".l":
+			g.used["l"] = true
+			return "$l"
+		}
+		g.used["q"] = true
+		return "$q" + strings.TrimPrefix(path, ".q") // $q.z, $q?.z
+	}
 	g.used["m"] = true
 	return "$m" + path
 }
@@ -385,7 +452,10 @@ func (g *semGen) exprOf(t semTy, d int) string {
 func (g *semGen) bindName() string {
 	switch g.r.Intn(4) {
 	case 0:
-		return g.r.Pick([]string{"n", "k", "s", "t", "b", "li"})
+		if g.kind == 0 {
+			return g.r.Pick([]string{"n", "k", "s", "t", "b", "li"})
+		}
+		// (in the callees without $m a parameter stands for a field of it: not shadowed)
 	case 1:
 		if len(g.vars) > 0 {
 			return g.vars[g.r.Intn(len(g.vars))].name
@@ -406,7 +476,65 @@ func (g *semGen) block(d int) string {
 	return b.String()
 }
 
+// {call}: of a template generated before; the data attribute its kind is meant for (now and then another one), value
+// and content params for the parameters it declares
+func (g *semGen) call(d int) string {
+	c := g.callees[g.r.Intn(len(g.callees))]
+	kind := c.kind
+	if g.r.Intn(8) == 0 {
+		kind = g.r.Intn(3)
+	}
+	attr := ""
+	switch kind {
+	case 0:
+		attr = " data=\"all\""
+	case 2:
+		if g.kind == 0 {
+			attr = " data=\"" + g.mapRef("") + "\""
+		} else {
+			attr = " data=\"all\""
+		}
+	}
+	var ps strings.Builder
+	keys := make([]string, 0, len(c.used))
+	for _, k := range semKinds[c.kind].order {
+		if c.used[k] {
+			keys = append(keys, k)
+		}
+	}
+	for _, k := range keys {
+		if g.r.Intn(3) == 0 && kind != 1 {
+			continue // left to the data (or undefined)
+		}
+		switch semKinds[c.kind].ty[k] {
+		case semI:
+			ps.WriteString("{param " + k + ": " + g.intE(1) + " /}")
+		case semS:
+			if d > 0 && g.r.Bool() {
+				ps.WriteString("{param " + k + "}" + g.block(d-1) + "{/param}")
+			} else {
+				ps.WriteString("{param " + k + ": " + g.strE(1) + " /}")
+			}
+		case semB:
+			ps.WriteString("{param " + k + ": " + g.boolE(1) + " /}")
+		case semLI:
+			if v, ok := g.variable(semLI); ok {
+				ps.WriteString("{param " + k + ": " + v + " /}")
+			} else if g.kind == 0 {
+				ps.WriteString("{param " + k + ": " + g.mapRef(".l") + " /}")
+			}
+		}
+	}
+	if ps.Len() == 0 {
+		return "{call ." + c.name + attr + " /}"
+	}
+	return "{call ." + c.name + attr + "}" + ps.String() + "{/call}"
+}
+
 func (g *semGen) cmd(d int) string {
+	if len(g.callees) > 0 && g.r.Intn(5) == 0 {
+		return g.call(d)
+	}
 	k := g.r.Intn(10)
 	if d <= 0 && k >= 6 {
 		k = g.r.Intn(6)
@@ -546,15 +674,22 @@ func (g *semGen) cmd(d int) string {
 	}
 }
 
-func (g *semGen) template() string {
-	g.vars, g.used, g.fresh = nil, map[string]bool{}, 0
-	body := g.block(3)
+// one template: the entry template `.t` (kind 0, its parameters required) or a callee (its parameters optional)
+func (g *semGen) one(name string, kind int, callee bool) (string, map[string]bool) {
+	g.vars, g.used, g.fresh, g.kind, g.isCallee = nil, map[string]bool{}, 0, kind, callee
+	depth := 3
+	g.loops = 0
+	if callee {
+		depth = 2
+		g.loops = 1 // a callee may run inside the caller's loops: its range loops are short
+	}
+	body := g.block(depth)
 	var doc strings.Builder
 	doc.WriteString("/**\n")
-	for _, p := range []string{"n", "k", "s", "t", "b", "li", "ls", "m", "u"} {
+	for _, p := range []string{"n", "k", "s", "t", "b", "li", "ls", "m", "u", "p", "c", "pl", "a", "l", "q"} {
 		if g.used[p] {
 			opt := ""
-			if p == "u" {
+			if p == "u" || callee {
 				opt = "?"
 			}
 			doc.WriteString(" * @param" + opt + " " + p + "\n")
@@ -562,8 +697,26 @@ func (g *semGen) template() string {
 	}
 	doc.WriteString(" */\n")
 	attr := g.r.Pick([]string{"", "", " autoescape=\"false\"", " autoescape=\"true\""})
+	return doc.String() + "{template ." + name + attr + "}\n" + body + "\n{/template}\n", g.used
+}
+
+// a file: the entry template `.t` FIRST (the generator's counter of fresh names runs through the file), then — in
+// about half of the files — one or two templates it calls (the second may call the first)
+func (g *semGen) template() string {
 	ns := g.r.Pick([]string{"{namespace sem}", "{namespace sem}", "{namespace sem autoescape=\"false\"}"})
-	return ns + "\n" + doc.String() + "{template .t" + attr + "}\n" + body + "\n{/template}\n"
+	g.callees = nil
+	var later []string
+	if g.r.Bool() {
+		for i, n := 0, 1+g.r.Intn(2); i < n; i++ {
+			name := fmt.Sprintf("c%d", i+1)
+			kind := g.r.Intn(3)
+			src, used := g.one(name, kind, true)
+			later = append(later, src)
+			g.callees = append(g.callees, semCallee{name, kind, used})
+		}
+	}
+	entry, _ := g.one("t", 0, false)
+	return ns + "\n" + entry + strings.Join(later, "")
 }
 
 func (g *semGen) str() data.Value { return data.String(g.text(4)) }
@@ -636,6 +789,17 @@ var semHands = []struct{ src, data string }{
 	// the loop functions: range loops count iterations (ed89aa1), nested loops over the same name, a let shadowing the variable
 	{"{namespace sem}\n/** @param li */\n{template .t}\n{for $i in range(1, 8, 3)}{index($i)}{isFirst($i) ? 'F' : ''}{isLast($i) ? 'L' : ''}{$i},{/for}|{foreach $x in $li}{index($x)}{isFirst($x)}{isLast($x)}{foreach $x in $li}{index($x)}{isLast($x) ? 'l' : '-'}{/foreach}{let $x: 9 /}{$x}{isLast($x)};{/foreach}\n{/template}\n", "(m (6c69 (l (i 5) (i 6) (i 7))))"},
 	{"{namespace sem}\n/** @param n */\n{template .t}\n{for $i in range($n)}{for $j in range(2)}{index($i)}{index($j)}{isLast($i)}{isLast($j)} {/for}{/for}\n{/template}\n", "(m (6e (i 2)))"},
+	// calls: value params and no data; a missing param is undefined in the callee (elvis), a param the callee passes on
+	{"{namespace sem}\n/** @param n */\n{template .t}\n[{call .c}{param p: $n + 1 /}{param c: 'a<' + $n /}{/call}][{call .c /}][{call .c}{param p: 2 /}{/call}]\n{/template}\n/** @param? p\n @param? c */\n{template .c}\n{$p ?: 'none'}:{$c ?: '-'}{if isNonnull($p)}{call .d}{param x: $p * 2 /}{/call}{/if}\n{/template}\n/** @param x */\n{template .d}\n<{$x}>\n{/template}\n", "(m (6e (i 5)))"},
+	// data="all": the callee sees the caller's data; an explicit param overrides a key of it; content params (nested, with a let inside)
+	{"{namespace sem}\n/** @param n\n @param s */\n{template .t}\n{call .c data=\"all\" /}|{call .c data=\"all\"}{param n: $n * 10 /}{/call}|{call .c data=\"all\"}{param s}<{$n}{let $n: 'in' /}{$n}{call .c data=\"all\"}{param s: 'deep' /}{/call}>{/param}{/call}|{$n}\n{/template}\n/** @param n\n @param s */\n{template .c}\n({$n},{$s})\n{/template}\n", "(m (6e (i 7)) (73 (s 3c26)))"},
+	// data="$m": the fields of the map are the callee's parameters; a param beside it; a null map throws nothing by itself
+	{"{namespace sem}\n/** @param m */\n{template .t autoescape=\"false\"}\n{call .c data=\"$m\" /}|{call .c data=\"$m\"}{param a: 1 /}{param z}Z{/param}{/call}|{call .c data=\"$m.q\" /}\n{/template}\n/** @param? a\n @param? s\n @param? z */\n{template .c}\n{$a ?: 0}{$s ?: ''}{$z ?: ''}\n{/template}\n", "(m (6d (m (61 (i 4)) (73 (s 78)) (71 (m (7a (i 9)))))))"},
+	// a TypeError inside the callee, and in a param expression
+	{"{namespace sem}\n/** @param m */\n{template .t}\nA{call .c data=\"$m\" /}B\n{/template}\n/** @param? q */\n{template .c}\n{$q.z}\n{/template}\n", "(m (6d (m (61 (i 1)))))"},
+	{"{namespace sem}\n/** @param m */\n{template .t}\nA{call .c}{param p: $m.q.z /}{/call}B\n{/template}\n/** @param p */\n{template .c}\n{$p}\n{/template}\n", "(m (6d (m (61 (i 1)))))"},
+	// a call inside a loop, the loop variable and index passed on; the callee loops itself
+	{"{namespace sem}\n/** @param li */\n{template .t}\n{foreach $x in $li}{call .c}{param p: $x /}{param i: index($x) /}{param l: $li /}{/call};{/foreach}\n{/template}\n/** @param p\n @param i\n @param l */\n{template .c}\n{$i}:{foreach $y in $l}{$y * $p}{if not isLast($y)},{/if}{/foreach}\n{/template}\n", "(m (6c69 (l (i 2) (i 3))))"},
 	// raw text with every escape class
 	{"{namespace sem}\n{template .t}\na'b\"c\\d<e>&f=g{sp}{nil}{\\n}{\\t}{lb}{rb}é \n{/template}\n", "(m)"},
 }
